@@ -1,5 +1,5 @@
 """Per-property check procedures.  Each returns the process exit code."""
-import json, os, sys, time, collections
+import json, re, os, sys, time, collections
 import vlib
 from vlib import WORK, HARNESS, ToolError, log, Verdict
 
@@ -556,9 +556,10 @@ def mut_check(prop_id, tier, replay, select, check_prefix, text, extra=None):
            "rule": "MutMC: subject type x up to 3 values x {every cut, every byte x 6 replacement values, every 8-byte window x 5 length patterns, "
                    "append} plus all byte strings of length <= 3 over {0,1,2,255}; non-trivial = the input differs from a valid encoding; distinct by (type, input)",
            "samples": samples, "exhaustive": not replay, "explanation": text}
-    return v.finish("model_checking", cov, WIRE_ASSUME + [
-        "undefined behaviour without a functional symptom is outside the technique's reach: the check observes outcomes "
-        "(value / error / panic / process death) and validates returned values by re-serialising them, it does not run a sanitizer",
+    cov.update(getattr(v, "extra_cov", {}))
+    return v.finish("model_checking", cov, WIRE_ASSUME + getattr(v, "extra_notes", []) + [
+        "undefined behaviour without a functional symptom cannot be decided by the specification; it is OBSERVED: inputs the native run judged "
+        "harmless are loaded again under the Miri interpreter for the subject types it can run (no sanitizer for the other types)",
         "allocation-failure aborts on absurd declared lengths are excused, as the property states"])
 
 def _c06_schema_sections(tier, replay):
@@ -603,6 +604,83 @@ def _c06_schema_sections(tier, replay):
         return len(observations)
     return run
 
+def _c06_extras(tier):
+    sections = _c06_schema_sections(tier, None)
+    def run(v):
+        n = sections(v)
+        done, note = _c06_miri(tier, v)
+        v.extra_cov = {"inputs_reloaded_under_miri": done}
+        if note:
+            v.extra_notes = [note]
+        return n + done
+    return run
+
+MIRI_TYPES = {"u8", "u32", "bool", "char", "u128", "usize", "f32", "String", "Vec<u8>", "Vec<u32>", "Vec<String>", "Vec<bool>", "Vec<char>",
+              "Vec<u16>", "Vec<Option<u8>>", "Vec<(u8,u16)>", "Vec<(u8,u8)>", "Vec<Vec<u8>>", "Vec<struct(C){u8,u8}>", "Vec<struct(C){u8,u32}>",
+              "Vec<enum#u8{V|V}>", "VecDeque<u8>", "VecDeque<u32>", "BoxSlice<u8>", "BoxSlice<u32>", "SmallVec<u8>", "SmallVec<u32>",
+              "ArrayVec<u8>", "ArrayVec<u32>", "[u8;3]", "[bool;3]", "[char;3]", "[u16;3]", "[String;3]", "Option<u8>", "Option<String>",
+              "Box<String>", "(u8,String,u16)", "struct(C){bool,char}", "struct{u8,String,u32}"}
+
+def _c06_miri(tier, v):
+    """Undefined behaviour WITHOUT a functional symptom: inputs of MutMC that the native run judged harmless (verdict ok) are loaded again
+    under the Miri interpreter (cargo +nightly miri), which stops at the first undefined behaviour; that input is a violation."""
+    import subprocess
+    obs_path = os.path.join(WORK, "mut_%s.obs" % tier)
+    rej_path = os.path.join(WORK, "mut_%s.rej" % tier)
+    bad = set(json.loads(l)["i"] - 1 for l in open(rej_path))
+    per_type = 3 if tier == "quick" else 60        # (about a second per input under Miri)
+    chosen, count = [], collections.Counter()
+    for i, line in enumerate(open(obs_path)):
+        o = json.loads(line)
+        name = vlib.show(o["t"])
+        # absurd declared lengths are the allocation-failure case of the native run; Miri would only reproduce the abort
+        if name not in MIRI_TYPES or i in bad or o["err"] == "eof-or-alloc" or len(o["inp"]) > 64 or o["real"] not in ("ok", "err"):
+            continue
+        if count[name] >= per_type:
+            continue
+        count[name] += 1
+        chosen.append((name, o))
+    mdir = os.path.join(HARNESS, "miri")
+    done, start, note = 0, 0, None
+    for attempt in range(4):
+        batch = chosen[start:]
+        if not batch:
+            break
+        with open(os.path.join(mdir, "src", "inputs.rs"), "w") as f:
+            f.write("// GENERATED by bin/checks.py (C06): inputs of spec/MutMC.tla that the native run judged harmless\n")
+            f.write("pub static INPUTS: &[(&str, &[u8])] = &[\n")
+            for (name, o) in batch:
+                f.write("    (%s, &[%s]),\n" % (json.dumps(name), ", ".join(str(b) for b in o["inp"])))
+            f.write("];\n")
+        env = dict(os.environ, CARGO_NET_OFFLINE="true", MIRIFLAGS="-Zmiri-disable-isolation")
+        env.pop("RUSTFLAGS", None)
+        try:
+            pr = subprocess.run(["cargo", "+nightly", "miri", "run", "--offline"], cwd=mdir, env=env, stdout=subprocess.PIPE, stderr=subprocess.PIPE,
+                                timeout=3000 if tier == "quick" else 14000)
+        except subprocess.TimeoutExpired:
+            note = "the Miri run did not finish within its time budget after %d inputs" % done
+            break
+        out, err = pr.stdout.decode(errors="replace"), pr.stderr.decode(errors="replace")
+        m = re.search(r"^DONE (\d+)", out, re.M)
+        if m:
+            done += len(batch)
+            break
+        ats = re.findall(r"^AT (\d+)", out, re.M)
+        ub = re.search(r"error: (Undefined Behavior:[^\n]*|unsupported operation:[^\n]*|[^\n]*)", err)
+        if not ats or "Undefined Behavior" not in err:
+            note = "Miri is not usable here (%s): undefined behaviour without a functional symptom was not observed" % \
+                (ub.group(1)[:160] if ub else (err.strip().splitlines() or ["no output"])[-1][:160])
+            break
+        k = int(ats[-1])
+        name, o = batch[k]
+        v.report("c06.miri." + ("invalid-value" if "invalid value" in ub.group(1) else "undefined-behaviour"),
+                 {"t": o["t"], "mut": o["mut"], "inp": o["inp"], "msg": ub.group(1)},
+                 "%s input=%s (%s): under Miri: %s" % (name, o["inp"], o["mut"], ub.group(1)[:200]),
+                 {"input": {kk: o[kk] for kk in ("t", "ver", "inp", "mut", "ok", "err", "pos")}, "miri": ub.group(1)})
+        done += k
+        start += k + 1
+    return done, note
+
 @prop("C06")
 def c06(p, tier, replay):
     if replay and json.load(open(replay))["record"].get("kind") == "schema-section":
@@ -617,7 +695,7 @@ def c06(p, tier, replay):
         "accepted that the format rejects, every returned value re-serialises to a canonical valid encoding no longer than the input; "
         "the same for malformed SCHEMA SECTIONS (SchemaMut / SchemaMutTrace: every cut, byte and length mutation of the sections of "
         "schema trees of every node kind, decoded by the real Schema::deserialize)",
-        extra=None if replay else _c06_schema_sections(tier, None))
+        extra=None if replay else _c06_extras(tier))
 
 def _c07_prefixes(tier):
     def run(v):
